@@ -345,7 +345,6 @@ func c04ScAppend(cfg c04Cfg, appends int, extra int) {
 	pos := bs
 	// KF-C04-3: a write that starts at an unaligned offset in the block right after the end of an
 	// extent panics (makeslice with a negative length)
-	vp.KnownPanic("KF-C04-3", "ext4/file.go:198")
 	if extra != 0 && vp.Known("KF-C04-3") {
 		vp.Stop("known finding KF-C04-3: unaligned appends panic, not exercised further")
 	}
